@@ -48,6 +48,117 @@ func genC16(r *simcore.Rand, tier string) any {
 	return p
 }
 
+// genC17: canonical histories with side branches and history limits, then
+// Recover to every recoverable root (newest first), refused Recovers, and new
+// forks on top of the rolled-back state, repeated.
+func genC17(r *simcore.Rand, tier string) any {
+	p := &Plan{Check: "C17", K: genKnobs(r)}
+	p.K.Indexing = false
+	p.K.MaxDiff = r.Range(2, 8)
+	if r.Bool(0.5) {
+		// trienode histories: unlimited, or at least as long as the state history;
+		// in 1 of 10 such runs shorter (Recover below their tail is a recorded finding)
+		switch {
+		case r.Bool(0.1):
+			p.K.TrienodeHistory = int64(r.Range(2, 12))
+		case p.K.StateHistory == 0 || r.Bool(0.3):
+			p.K.TrienodeHistory = 0
+		default:
+			p.K.TrienodeHistory = int64(p.K.StateHistory) + int64(r.Intn(3))
+		}
+	}
+	p.K.NoAsyncFlush = r.Bool(0.5)
+	rounds := r.Range(1, 3)
+	total := r.Range(5, 60)
+	if tier == "thorough" {
+		total = r.Range(5, 300)
+	}
+	ph := Phase{}
+	for round := 0; round < rounds; round++ {
+		n := total/rounds + 1
+		for i := 0; i < n; i++ {
+			switch r.Pick(14, 1, 1, 2, 1) {
+			case 0:
+				op := Op{K: "upd", M: genMuts(r, &p.K)}
+				if r.Bool(0.08) {
+					op.P = 1 + r.Intn(64)
+				}
+				ph.Ops = append(ph.Ops, op)
+			case 1:
+				ph.Ops = append(ph.Ops, Op{K: "commit", T: r.Intn(64)})
+			case 2:
+				ph.Ops = append(ph.Ops, Op{K: "recover", T: r.Intn(1 << 10)})
+			case 3:
+				rd := genRead(r, &p.K, false)
+				ph.Ops = append(ph.Ops, Op{K: "read", R: &rd})
+			case 4:
+				ph.Ops = append(ph.Ops, Op{K: "dup", P: r.Intn(16), T: r.Intn(64)})
+			}
+		}
+		if r.Bool(0.3) {
+			ph.Ops = append(ph.Ops, Op{K: "commit", T: 0})
+		}
+		ph.Ops = append(ph.Ops, Op{K: "recall"})
+		if r.Bool(0.25) && round < rounds-1 {
+			ph.End = "journal"
+			p.Phases = append(p.Phases, ph)
+			ph = Phase{}
+		}
+	}
+	p.Phases = append(p.Phases, ph)
+	if !p.K.NoAsyncFlush {
+		if r.Bool(0.4) {
+			for i := range p.Phases {
+				var script []Read
+				for q := r.Range(3, 20); q > 0; q-- {
+					script = append(script, genRead(r, &p.K, false))
+				}
+				p.Phases[i].Readers = [][]Read{script}
+			}
+		}
+		p.Tape = r.Tape(2500)
+	}
+	return p
+}
+
+// genC22: the layered workload with iterator reads (fast and binary, account and
+// storage) by the main actor and by iterator actors whose Next() calls are gates.
+func genC22(r *simcore.Rand, tier string) any {
+	p := &Plan{Check: "C22", K: genKnobs(r)}
+	p.K.Indexing = false
+	p.OrphanOK = r.Bool(0.15)
+	single := r.Bool(0.4)
+	nops := r.Range(8, 50)
+	if tier == "thorough" {
+		nops = r.Range(8, 250)
+	}
+	nph := r.Pick(6, 3) + 1
+	for i := 0; i < nph; i++ {
+		ph := Phase{}
+		if single {
+			p.K.NoAsyncFlush = true
+			ph.Ops = genOps(r, &p.K, nops/nph+1, 1, 10)
+		} else {
+			ph.Ops = genOps(r, &p.K, nops/nph+1, 1, 3)
+			for j := r.Range(1, 3); j > 0; j-- {
+				var script []Read
+				for q := r.Range(2, 12); q > 0; q-- {
+					script = append(script, genRead(r, &p.K, true))
+				}
+				ph.Readers = append(ph.Readers, script)
+			}
+		}
+		if i < nph-1 || r.Bool(0.2) {
+			ph.End = "journal"
+		}
+		p.Phases = append(p.Phases, ph)
+	}
+	if !single {
+		p.Tape = r.Tape(3000)
+	}
+	return p
+}
+
 var realComponents = []string{
 	"triedb/pathdb Database, layerTree, lookup, diffLayer, diskLayer, buffer (live + frozen, background flusher), reader, states, nodes, journal (KV or file), history writer, generator (empty-state run)",
 	"core/rawdb state/trienode history freezers (resettable freezer on real files through simos), rawdb accessors",
@@ -75,7 +186,33 @@ func Checks() map[string]*simcore.Check {
 			Perturbed:  []string{"lookup add/remove worker goroutines", "interleavings between two KV gates of goroutines sharing memory", "map iteration order inside batches"},
 			Runs:       map[string]int{"quick": 1600, "thorough": 60000},
 			Gen:        genC16, Decode: decodePlan, Run: runPlan, Shrink: shrinkPlan,
-			ProbeNames: []string{"flatten", "commit", "repeated-root", "empty-transition", "dropped-root-refused", "live-read", "journal-reopen-with-diff-layers", "disk-image-checked", "frozen-buffer-read", "buffer-read", "disk-read"},
+			ProbeNames: []string{"flatten", "commit", "repeated-root", "empty-transition", "dropped-root-refused", "live-read", "journal-reopen-with-diff-layers", "disk-image-checked", "read-with-frozen-buffer", "read-with-live-buffer", "read-error-on-dropped-root"},
+		},
+		"C17": {
+			ID: "C17", Engine: "pathdbsim", Level: "exploration",
+			Rule: "plan = knobs (maxDiffLayers 2-8, WriteBufferSize 0-40000, StateHistory limit 0 or 2-30, trienode history off/limited/unlimited, sync or async flush) + canonical histories of 5-300 transitions with side branches, Commit, repeated roots, in 1-3 rounds; random Recover targets among all states ever produced (recoverable or not) and at the end of each round Recoverable is asked for every state and Recover is called for every reported one, newest first; new forks are then built on the rolled-back state. After each successful Recover: layer tree = the single target layer, every account/slot/trie node of the universe reads as the target state, state (and trienode) history head == target id, Recoverable of every state re-evaluated, and once the flusher is idle the raw flat-state and trie-node key spaces equal the model state of the persisted id exactly (no leftover). Refused Recover: error, no key-value unit and no file event recorded. Non-trivial = at least one successful Recover; distinct = distinct (schedule, model states + flattened chain) fingerprints.",
+			Assumptions: []string{
+				"which roots are recoverable is judged with the history tail read back from the freezer (the pruning instant depends on flush timing, which the property leaves open); everything else is predicted by the model",
+				"states are unique per transition and a root with a place in the flattened history is never re-added",
+			},
+			Components: simcore.Components{Real: realComponents, Stub: stubComponents},
+			Perturbed:  []string{"map iteration order inside batches and history encoding", "lookup workers"},
+			Runs:       map[string]int{"quick": 1000, "thorough": 30000},
+			Gen:        genC17, Decode: decodePlan, Run: runPlan, Shrink: shrinkPlan,
+			ProbeNames: []string{"recover-done", "recover-refused", "recover-inside-buffer", "recover-across-buffer-boundary", "recover-on-disk", "recoverable-roots", "disk-image-checked", "history-tail-pruned"},
+		},
+		"C22": {
+			ID: "C22", Engine: "pathdbsim", Level: "exploration",
+			Rule: "plan = the C16 layer-tree workload (forks, destruct/recreate, deletions overlapping across layers, tiny write buffers, Commit, Journal+reopen) with iterator reads by the main actor and 1-3 iterator actors: fast (merged) and binary account/storage iterators at random live or dropped roots with seek = zero / exact key / just after a key / max; every Next() is a gate, so flattening and flushing proceed between steps. Drained sequence must be a prefix of the ascending live entries of the model state from the seek position with equal values; complete when the iterator ends without error; an error only when a tree-changing operation overlapped the iteration; no iterator for a dropped root. Non-trivial = at least one non-empty complete iteration and one flatten; distinct = distinct (schedule, model states) fingerprints.",
+			Assumptions: []string{
+				"only the path database iterators are covered (the legacy snapshot tree iterators of the property statement are not: see NOTES.md)",
+				"an iterator whose base layer went stale may fail; what it yielded before must still be right",
+			},
+			Components: simcore.Components{Real: append([]string{"triedb/pathdb fastIterator, binaryIterator, diff/disk account and storage iterators"}, realComponents...), Stub: stubComponents},
+			Perturbed:  []string{"map iteration order", "lookup workers"},
+			Runs:       map[string]int{"quick": 1400, "thorough": 50000},
+			Gen:        genC22, Decode: decodePlan, Run: runPlan, Shrink: shrinkPlan,
+			ProbeNames: []string{"iterator-complete", "iterator-nonempty", "iterator-failed-on-stale-base", "flatten", "dropped-root-refused"},
 		},
 	}
 }
